@@ -361,23 +361,24 @@ Section Conv.
     | None => match nodes with [] => None | _ => Some BWeakBreak end
     end.
 
+  (* the loop body of collect_markup_repr *)
+  Definition repr_step (st : list markup_line * markup_line * boundary) (node : bundle) :=
+    let '(lines, cur, sb) := st in
+    let k := bk node in
+    if kind_eqb k KParbreak then
+      (lines ++ [mk_ml (ml_nodes cur) (count_lb (tx node)) (ml_mixed cur)], ml_empty, sb)
+    else if kind_eqb k KSpace && (match ml_nodes cur with [] => true | _ => false end) then
+      (lines, cur, boundary_from_space (tx node))
+    else if kind_eqb k KSpace && has_lb (tx node) then
+      (lines ++ [mk_ml (ml_nodes cur) 1 (ml_mixed cur)], ml_empty, sb)
+    else
+      let mixed := ml_mixed cur || kin k MIXED_TEXT_KINDS in
+      let sb' := if (match ml_nodes cur with [] => true | _ => false end) && is_block_elem node
+                 then strip_space sb else sb in
+      (lines, mk_ml (ml_nodes cur ++ [node]) (ml_breaks cur) mixed, sb').
+
   Definition collect_markup_repr (children : list bundle) : markup_repr :=
-    let step (st : list markup_line * markup_line * boundary) (node : bundle) :=
-      let '(lines, cur, sb) := st in
-      match bk node with
-      | KParbreak => (lines ++ [mk_ml (ml_nodes cur) (count_lb (tx node)) (ml_mixed cur)], ml_empty, sb)
-      | k =>
-          if kind_eqb k KSpace && (match ml_nodes cur with [] => true | _ => false end) then
-            (lines, cur, boundary_from_space (tx node))
-          else if kind_eqb k KSpace && has_lb (tx node) then
-            (lines ++ [mk_ml (ml_nodes cur) 1 (ml_mixed cur)], ml_empty, sb)
-          else
-            let mixed := ml_mixed cur || kin k MIXED_TEXT_KINDS in
-            let sb' := if (match ml_nodes cur with [] => true | _ => false end) && is_block_elem node
-                       then strip_space sb else sb in
-            (lines, mk_ml (ml_nodes cur ++ [node]) (ml_breaks cur) mixed, sb')
-      end in
-    let '(lines0, cur, sb) := fold_left step children ([], ml_empty, BNil) in
+    let '(lines0, cur, sb) := fold_left repr_step children ([], ml_empty, BNil) in
     let lines1 := match ml_nodes cur with [] => lines0 | _ => lines0 ++ [cur] end in
     (* Remove trailing spaces *)
     let '(lines2, eb) :=
